@@ -120,7 +120,15 @@ class Ctx:
         res = {"module": module, "cfg": cfg, "generated": 0, "distinct": 0,
                "violated": None, "violations": [], "cases": 0, "error": None}
         pending = None
-        deadline = t0 + timeout
+        timed_out = []
+
+        def _kill():
+            timed_out.append(1)
+            proc.kill()
+        import threading
+        timer = threading.Timer(timeout, _kill)
+        timer.daemon = True
+        timer.start()
         try:
             for line in proc.stdout:
                 line = line.rstrip("\n")
@@ -149,11 +157,11 @@ class Ctx:
                 if m:
                     res["violated"] = m.group(2) or m.group(1)
                     res["violations"].append(res["violated"])
-                if time.time() > deadline:
-                    proc.kill()
-                    raise MachineryError("TLC timed out on %s (%ds)" % (cfg, timeout))
             proc.wait()
+            if timed_out:
+                raise MachineryError("TLC timed out on %s (%ds)" % (cfg, timeout))
         finally:
+            timer.cancel()
             if proc.poll() is None:
                 proc.kill()
             shutil.rmtree(meta, ignore_errors=True)
@@ -360,6 +368,76 @@ def finish(ctx, level="model_checking", rule=None):
         ctx.prop, ctx.tier, ctx.seed, ctx.states, ctx.transitions, ctx.traces, len(unlisted),
         len(printed_known), time.time() - ctx.t0))
     return 1 if unlisted else 0
+
+
+def emit_and_replay(ctx, module, files, vh_args, timeout=1800, cfg=None, sample_every=997, **tlc_kw):
+    """Direction A.  TLC enumerates the model, checks its invariants and prints every
+    case; the real code replays every case (vh <vh_args> reads cases on stdin, writes one
+    JSON line per mismatch plus a {"summary":1,"cases":n,...} line).
+    Returns (tlc result, list of mismatch records)."""
+    cases = ctx.path(module + ".cases.ndjson")
+    count = [0]
+    with open(cases, "w") as fh:
+        def on_case(obj):
+            fh.write(json.dumps(obj, separators=(",", ":")) + "\n")
+            if count[0] % sample_every == 0:
+                ctx.sample({"from": module, "case": obj})
+            count[0] += 1
+        res = ctx.tlc(module, cfg=cfg, files=files, on_case=on_case, timeout=timeout, **tlc_kw)
+    if res["violated"]:
+        raise MachineryError(
+            "design step: %s is violated on the model itself (%s): the specification is wrong or an "
+            "as-is switch is on; this is never reported as a violation of the code" % (res["violated"], module))
+    ctx.cases_emitted = getattr(ctx, "cases_emitted", 0) + res["cases"]
+    out = ctx.path(module + ".results.ndjson")
+    ctx.vh(vh_args, stdin_path=cases, stdout_path=out, timeout=timeout)
+    mism, summary = [], None
+    for o in read_ndjson(out):
+        if "summary" in o:
+            summary = o
+        else:
+            mism.append(o)
+    if summary is None or summary["cases"] != res["cases"]:
+        raise MachineryError("replay of %s incomplete: %s of %d cases" % (module, summary, res["cases"]))
+    ctx.traces += summary["cases"]
+    os.remove(cases)
+    return res, mism
+
+
+def validate_obs(ctx, module, cfg, obs_name, obs_path, timeout=1800, chunk=40000, per_obs_states=2):
+    """Direction B.  Every line of obs_path is an independent observation recorded from
+    the real code; the trace specification <module> reads it as <obs_name>, evaluates the
+    specification on each (TNext) and prints <<"BAD", i, "extra">> for every one it rejects.
+    Returns (bad observations with key "spec_extra", number of observations)."""
+    with open(obs_path) as fh:
+        lines = [l for l in fh if l.strip()]
+    n = len(lines)
+    if n == 0:
+        raise MachineryError("driver recorded nothing")
+    ctx.prepare_spec()
+    bad = []
+    for start in range(0, n, chunk):
+        part = lines[start:start + chunk]
+        with open(os.path.join(ctx.specdir, obs_name), "w") as fh:
+            fh.writelines(part)
+        res = ctx.tlc(module, cfg=cfg, cont=True, timeout=timeout)
+        extra = {}
+        for l in res["out"]:
+            m = re.match(r'^<<"BAD", (\d+)(?:, "?([^">]*)"?)?>>', l)
+            if m:
+                extra[int(m.group(1))] = m.group(2) or ""
+        if res["distinct"] != per_obs_states * len(part):
+            raise MachineryError("trace validation explored %d states for %d observations:\n%s" % (
+                res["distinct"], len(part), "\n".join(res["out"][-25:])))
+        if bool(extra) != bool(res["violated"]):
+            raise MachineryError("BAD lines and TLC's verdict disagree")
+        for i in sorted(extra):
+            o = json.loads(part[i - 1])
+            o["spec_extra"] = extra[i]
+            bad.append(o)
+        ctx.traces += len(part)
+    os.remove(os.path.join(ctx.specdir, obs_name))
+    return bad, n
 
 
 def read_ndjson(path):
